@@ -271,14 +271,14 @@ Definition parse_record (o : opts) (s : stream) (fnd : list finding) : uresult :
                   let avail := sdata s2 in
                   let content := if (len <? 0)%Z then avail else firstn (Z.to_nat len) avail in
                   let s3 := mkst (skipn (length content) avail) (stail s2) in
-                  let short := negb (len <? 0)%Z && (length avail <? Z.to_nat len)%nat in
+                  let short := (len <? 0)%Z || (length avail <? Z.to_nat len)%nat in
                   match stail s2, short with
                   | TErr, true => URec (mkrec vt vid rt hs1 (mkblk BGeneric [] [])) (Some (KRead, [])) fnd4 s3
                   | _, _ =>
                       match parse_block o rt hs1 content fnd4 with
                       | Err e5 fnd5 => URec (mkrec vt vid rt hs1 (mkblk BGeneric [] content)) (Some e5) fnd5 s3
                       | Ok (hs2, blk, bd, pd) fnd5 =>
-                          match validate_digest o rt hs2 blk bd pd false fnd5 with
+                          match validate_digest o rt hs2 blk bd pd (match bk blk with BWarcFields | BRevisit => true | _ => false end) fnd5 with
                           | Err e6 fnd6 => URec (mkrec vt vid rt hs2 blk) (Some e6) fnd6 s3
                           | Ok hs3 fnd6 =>
                               match trailer o s3 fnd6 with
